@@ -205,6 +205,11 @@ func dependsOnCall(v ssa.Value, call *ssa.Call) bool {
 			return true
 		}
 		switch x := v.(type) {
+		case *ssa.Parameter:
+			if b, ok := curBind[x]; ok {
+				return walk(b, d+1)
+			}
+			return false
 		case *ssa.Alloc:
 			for _, st := range allocStores(x) {
 				if walk(st.Val, d+1) {
@@ -246,6 +251,17 @@ func dependsOnCall(v ssa.Value, call *ssa.Call) bool {
 				return walk(b, d+1)
 			}
 			return false
+		case *ssa.Call:
+			// the result of a module helper depends on what the helper returns
+			if cal := x.Call.StaticCallee(); cal != nil && call.Parent() != nil && (call.Parent() == cal || hasAncestor(call.Parent(), cal)) {
+				for _, ret := range returnsOf(cal) {
+					for i := range ret.Results {
+						if walk(retResult(ret, i), d+1) {
+							return true
+						}
+					}
+				}
+			}
 		}
 		if in, ok := v.(ssa.Instruction); ok {
 			for _, op := range in.Operands(nil) {
@@ -318,6 +334,9 @@ func ruleC01_3(c *Ctx, r *Rep) {
 				}
 				if len(w.Nested[0].Unknown) > 0 || w.Nested[0].HasLimit {
 					ok, msg = false, "uninterpreted/limiting operations on the subscription load"
+				}
+				if len(w.Nested[0].SelCols) > 0 {
+					ok, msg = false, "the subscriptions are loaded with a column subset ("+strings.Join(w.Nested[0].SelCols, ",")+"): fields the fan-out relies on (retention, delivery delay, filter, ordering flag) read as zero"
 				}
 			} else {
 				msg = "subscription load without the live filter"
